@@ -181,11 +181,10 @@ Example ex_s4_by_theorem :
   exists warns, parse_model ex_cls ex2_numcanon (fun _ => false) true (lines_of (emit (u_space ex_cls) ex_s4)) = PRDoc ex_s4 [] warns /\
                 Forall advisory warns.
 Proof.
-  destruct (tokenize ex_cls false (lines_of (emit (u_space ex_cls) ex_s4))) as [toks reps| |] eqn:E; try (vm_compute in E; discriminate E).
-  assert (Hr : reps = []) by (vm_compute in E; injection E as _ E2; symmetry; exact E2). subst reps.
+  pose (toks := match tokenize ex_cls false (lines_of (emit (u_space ex_cls) ex_s4)) with LexOk t _ => t | _ => [] end).
+  assert (E : tokenize ex_cls false (lines_of (emit (u_space ex_cls) ex_s4)) = LexOk toks []) by (vm_compute; reflexivity).
   apply (text_roundtrip_core2_checked ex_cls ex2_numcanon (fun _ => false) true ex_ml ex_idnum ex_s4 _ toks []
-           ex_s4_core (proj1 ex_s4_nums) (proj2 ex_s4_nums)); [vm_compute; reflexivity|exact E|].
-  pose proof ex_s4_lexes as H. unfold lex_ok in H. rewrite E in H. apply H.
+           ex_s4_core (proj1 ex_s4_nums) (proj2 ex_s4_nums)); [vm_compute; reflexivity|exact E|vm_compute; reflexivity].
 Qed.
 
 (* executable form of the hypothesis, for the harness: 0 = not a core2 document, 1 = shape check passed,
